@@ -13,6 +13,8 @@
   Lemmas/C08Tree.lean derives `good` from the shape hypotheses `unrootedOK`.
 -/
 import Gotree.Lemmas.C08Bits
+import Gotree.Lemmas.C08HM
+import Gotree.Lemmas.C08Rooted
 
 namespace Gotree.C08
 open Gotree List
@@ -273,5 +275,72 @@ theorem bitset_model_eq_canonical (r c : T) (tips sc : Bool) :
     compare r c tips sc = Canon.compare r c tips sc ∧
     compareWeighted r c tips sc = Canon.compareWeighted r c tips sc :=
   ⟨compare_eq r c tips sc, compareWeighted_eq r c tips sc⟩
+
+/-! ## any shape: rooted trees, single-child nodes (outside the property's quantifier; tie only) -/
+
+/-- `Compare` without the shortcut on ANY two indexable trees on the same taxa, in closed form
+    over the branch lists: the totals count branches (a rooted tree has two root branches for one
+    split, both counted, one index entry), `common` counts the counted branches of the compared
+    tree that are found (tip branches are taken for found without a lookup). -/
+theorem compare_any (r c : T) (tips : Bool) (hr : reinitOk r = true) (hc : reinitOk c = true)
+    (hT : sameTaxa r c = true) :
+    compare r c tips false =
+      .ok ⟨(r.splits.countP (counted tips) : Int) - (c.splits.countP fun e => foundIn r c e && counted tips e : Nat),
+           (c.splits.countP fun e => foundIn r c e && counted tips e : Nat),
+           (c.splits.countP (counted tips) : Int) - (c.splits.countP fun e => foundIn r c e && counted tips e : Nat),
+           c.splits.all (foundIn r c) && c.splits.countP (counted tips) == r.splits.countP (counted tips)⟩ :=
+  compare_any' r c tips hr hc hT
+
+/-- any indexable tree, rooted or not, is reported identical to itself -/
+theorem compare_self (t : T) (tips : Bool) (ht : reinitOk t = true) :
+    compare t t tips false = .ok ⟨0, (t.splits.countP (counted tips) : Nat), 0, true⟩ :=
+  compare_self' t tips ht
+
+/-- the two root branches of a rooted tree have `EqualOrComplement` bitsets (one index entry) -/
+theorem rooted_root_branches (d : NodeD) (p : Nat) (e1 e2 : EdgeD) (t1 t2 : T)
+    (hn : (T.node d p [(e1, t1), (e2, t2)]).tipNames.Nodup) :
+    eqOrCompl (key (T.node d p [(e1, t1), (e2, t2)]).tipNames ⟨t1.leaves, e1, t1.isLeaf⟩)
+      (key (T.node d p [(e1, t1), (e2, t2)]).tipNames ⟨t2.leaves, e2, t2.isLeaf⟩) = true :=
+  (root_branches_same_key d p e1 e2 t1 t2 hn).2
+
+/-- `gotree compare edges`: the row of a branch of the reference says terminal, its topological
+    depth, and "found" exactly when its split is a split (tip branches included) of the compared tree. -/
+theorem edgeRow_spec (r c : T) (hT : sameTaxa r c = true) (hr : unrootedOK r = true) (hc : unrootedOK c = true)
+    (s : SplitE) (hs : s ∈ r.splits) :
+    edgeRow r c s = (s.tip, lightSize r.tipNames (canonSide r.tipNames s.below),
+                     (S true c).contains (canonSide r.tipNames s.below)) :=
+  edgeRow_spec' r c hT hr hc s hs
+
+/-! ## through `ReinitIndexes` and the real hash map (C04's refinement, no assumption left) -/
+
+/-- `Compare` modelled through C04's `ReinitIndexes` (bitsets, tip counts, additive hashes for an
+    arbitrary name hash `H`) and C04's `hashmap.HashMap` (bucket by `Edge.HashCode`, `HashEquals`
+    inside the bucket, rehash under an arbitrary policy) returns the record of `compare`, for
+    every `H`, every policy and ALL inputs; the map never panics.  Uses `C04.put_refines`,
+    `C04.get_refines` (the lemmas behind `hm_refines`/`ei_refines`) with the key laws of the
+    index records (`keyLaws`, from C04's `spec_equals_iff_sameSplit`/`spec_hashCode_of_sameSplit`,
+    as in `edge_keys_lawful` but across the two trees). -/
+theorem compareHM_eq (H : String → UInt64) (policy : Nat → Nat → Bool) (r c : T) (tips sc : Bool) :
+    compareHM H policy r c tips sc = .res (compare r c tips sc) := compareHM_eq' H policy r c tips sc
+
+theorem compareWeightedHM_eq (H : String → UInt64) (policy : Nat → Nat → Bool) (r c : T) (tips sc : Bool) :
+    compareWeightedHM H policy r c tips sc = .res (compareWeighted r c tips sc) :=
+  compareWeightedHM_eq' H policy r c tips sc
+
+/-- ★ `compare_counts` for the model that goes through the hash map with the real hash. -/
+theorem compare_counts_hm (H : String → UInt64) (policy : Nat → Nat → Bool) (r c : T) (tips : Bool)
+    (hT : sameTaxa r c = true) (hr : unrootedOK r = true) (hc : unrootedOK c = true) :
+    compareHM H policy r c tips false =
+      .res (.ok ⟨((diffL (S tips r) (S tips c)).length : Int), ((interL (S tips r) (S tips c)).length : Int),
+                 ((diffL (S tips c) (S tips r)).length : Int), sameSplits r c tips⟩) := by
+  rw [compareHM_eq, compare_counts r c tips hT hr hc]
+
+theorem weighted_terms_hm (H : String → UInt64) (policy : Nat → Nat → Bool) (r c : T) (tips : Bool)
+    (hT : sameTaxa r c = true) (hr : unrootedOK r = true) (hc : unrootedOK c = true) :
+    ∃ w, compareWeightedHM H policy r c tips false = .res (.ok w) ∧
+      w.tree1 ~ onlyLens (U tips r) (U tips c) ∧ w.tree2 ~ onlyLens (U tips c) (U tips r) ∧
+      w.common ~ commonDiffs (U tips r) (U tips c) ∧ w.same = wSame r c tips := by
+  obtain ⟨w, h0, h⟩ := weighted_terms r c tips hT hr hc
+  exact ⟨w, by rw [compareWeightedHM_eq, h0], h⟩
 
 end Gotree.C08
